@@ -146,3 +146,14 @@ Proof.
   cbn [repeat]. unfold sac_calls. cbn [flat_map]. fold (sac_calls tui (repeat 1%nat n)). rewrite IH.
   unfold sac_train. cbn [seq map app]. change (Z.of_nat 0) with 0. rewrite Z.mod_0_l by lia. reflexivity.
 Qed.
+
+(* the spacing of DQN's updates in environment steps is as close to the configured interval as the vector step allows, never later *)
+Theorem dqn_spacing_window tui n : 0 < n -> 0 < tui ->
+  let g := dqn_period tui n * n in
+  (n <= tui -> tui - n < g <= tui) /\ (tui <= n -> g = n).
+Proof.
+  intros Hn Ht. cbn zeta. unfold dqn_period. pose proof (Z.div_mod tui n ltac:(lia)). pose proof (Z.mod_pos_bound tui n Hn).
+  split; intros Hc.
+  - assert (1 <= tui / n) by nia. nia.
+  - destruct (Z.eq_dec tui n) as [->|]; [rewrite Z_div_same_full by lia; lia|]. rewrite Z.div_small by lia. lia.
+Qed.
